@@ -118,14 +118,17 @@ func ceremony(ctx context.Context, c *kernel.Ctx, cer int, net *simnet.Net) {
 	// Pedersen is a synchronous (time-phased) protocol: phase 10 s. Its "slow but timely" fault is structured
 	// so that the unchanged protocol's premise holds by construction - every bundle arrives well inside the
 	// receiver's phase: all validator-public-key-share messages (the exchange between two validators' runs)
-	// take exDelay..exDelay+300 ms (<= 6 s, the same for every node, so the nodes stay in step), and every
-	// deal / response / justification bundle takes up to bundleMax (<= 6 s). Skew between nodes stays below
-	// ~1.5 s (start offsets + jitter), skew + latency < 8 s < phase.
+	// take exDelay..exDelay+300 ms (<= 9 s, the same for every node, so the nodes stay in step; the collect
+	// timeout of that exchange is 6 phases), and every deal / response / justification bundle takes up to
+	// bundleMax (<= 2.5 s, a quarter of a phase: a first version with bundles up to 6 s produced, on the
+	// unchanged tree, timed-out exchanges and ceremonies that succeeded with different group keys - with the
+	// protocol's fast-sync mode the nodes' runs drift apart by up to one bundle latency per step, so the
+	// premise needs a wide margin).
 	exDelay, bundleMax := 0, 0
 	if verifrt.Intn("cfg", 4) == 3 {
 		if algo == "pedersen" {
-			exDelay = []int{500, 2500, 4500, 6000}[verifrt.Intn("cfg", 4)]
-			bundleMax = []int{500, 3000, 5000, 6000}[verifrt.Intn("cfg", 4)]
+			exDelay = []int{500, 4000, 8000, 9000}[verifrt.Intn("cfg", 4)]
+			bundleMax = []int{300, 1000, 2000, 2500}[verifrt.Intn("cfg", 4)]
 			verifrt.Fault("slow-but-timely-links")
 		} else {
 			slow = verifrt.Intn("cfg", n)
@@ -137,6 +140,7 @@ func ceremony(ctx context.Context, c *kernel.Ctx, cer int, net *simnet.Net) {
 	dupPct := []int{0, 10}[verifrt.Intn("cfg", 2)]
 	c.Set(fmt.Sprintf("ceremony%d", cer), fmt.Sprintf("%s n=%d t=%d validators=%d maxDelayMs=%d dup%%=%d", algo, n, t, vals, maxDelay, dupPct))
 	verifrt.Probe("algo:" + algo)
+	verifrt.Note("ceremony %d: %s n=%d t=%d validators=%d maxDelayMs=%d dup%%=%d slow=%d/%dms exchange=%dms bundles<=%dms sloppy=%d deviant=%d", cer, algo, n, t, vals, maxDelay, dupPct, slow, slowMax, exDelay, bundleMax, sloppy, deviant)
 
 	net.Fate = func(e *simnet.Envelope) simnet.Fate {
 		f := simnet.Fate{Delay: time.Duration(verifrt.Intn("n", maxDelay)) * time.Millisecond}
@@ -271,7 +275,7 @@ func ceremony(ctx context.Context, c *kernel.Ctx, cer int, net *simnet.Net) {
 				}
 				results[me], errs[me] = dkg.VerifRunFrost(cctx, nodes[me].tp, vals, n, myT, me+1, "dkg-ctx")
 			}
-			verifrt.Note("node %d done err=%v", me, errs[me] != nil)
+			verifrt.Note("node %d done err=%v", me, errs[me])
 		})
 	}
 	verifrt.WGWait(&wg)
@@ -289,15 +293,11 @@ func ceremony(ctx context.Context, c *kernel.Ctx, cer int, net *simnet.Net) {
 				verifrt.Probe("ceremony-aborted-with-slow-member:" + algo)
 				return
 			}
-			if bundleMax > 0 && stragglers == 0 {
-				c.Violate("C11", "ceremony-failed", "timely-pedersen-ceremony-returned-error", "pedersen n=%d t=%d validators=%d with slow but timely links (exchange %d ms, bundles <= %d ms, phase 10 s): node %d returned %v", n, t, vals, exDelay, bundleMax, i, err)
-				return
-			}
-			if stragglers > 0 {
-				// messages of an earlier ceremony reached this one: refusing to complete is a legitimate
-				// outcome (the statement is about successful ceremonies); only a ceremony that nothing
-				// disturbed must succeed
-				verifrt.Probe("ceremony-aborted-after-stale-messages")
+			if bundleMax > 0 {
+				// an abort is a legitimate outcome (observed on the unchanged tree: a deal that reaches a
+				// node whose protocol run is not reading yet is dropped when the handler's context ends,
+				// and with t = n the run then aborts with "only n-1/n valid deals")
+				verifrt.Probe("ceremony-aborted-with-slow-but-timely-links")
 				return
 			}
 			c.Violate("C11", "ceremony-failed", "fault-free-ceremony-returned-error", "ceremony n=%d t=%d validators=%d: node %d returned %v", n, t, vals, i, err)
